@@ -69,6 +69,18 @@ def type_stream(rnd: random.Random, n_random: int):
     out += unions(d1, [2], rnd, 500)
     out += unions(d1 + ATOMS, [3, 4, 6, 7], rnd, 120)
     out += unions(tds + [int, NoneType, Dict[str, int]], [2, 3], rnd, 30)
+    # classes with the SAME qualified name in two different modules (a vendored copy, two apps of one project): whatever a
+    # rewriter remembers about the first family must not be applied to the second (the rewriter objects live for the whole run)
+    def _family(mod):
+        node = type("Node", (), {"__module__": mod})
+        return node, type("Leaf", (node,), {"__module__": mod}), type("Twig", (node,), {"__module__": mod})
+    sN, sL, sT = _family("shop")
+    bN, bL, bT = _family("blog")
+    out += [Union[sL, sT], Union[bL, bT], Union[sL, bT], Union[bL, sT, sN], Union[bN, bL], Union[sL, sT, int]]
+    # plain dicts next to defaultdicts: a DefaultDict is not a Dict for the dict rewriters (and vice versa)
+    out += [Union[Dict[int, str], DefaultDict[int, int]], Union[DefaultDict[str, int], Dict[str, str]], Union[Dict[Any, Any], DefaultDict[str, int]],
+            Union[DefaultDict[str, int], Dict[Any, Any]], Union[Dict[str, int], DefaultDict[str, int], DefaultDict[str, str]],
+            Union[DefaultDict[Any, Any], Dict[str, int]]]
     # an EMPTY container's type next to a TypedDict (a generator that yielded {} and a str-keyed dict): the TypedDict is not
     # a Dict sibling, nothing may be dropped
     for td in tds[:4]:
